@@ -5,11 +5,12 @@ import (
 )
 
 type thread struct {
-	id      int
-	done    bool
-	resume  chan struct{}
-	vc      []int
-	blocked *Value // mutex slot waiting on
+	id       int
+	done     bool
+	resume   chan struct{}
+	vc       []int
+	blocked  *Value // mutex slot waiting on
+	blockedR bool   // waiting for a read lock (readers do not block it)
 }
 
 type access struct {
@@ -19,9 +20,11 @@ type access struct {
 }
 
 type mutexState struct {
-	held  bool
-	owner int
-	vc    []int
+	held    bool
+	owner   int
+	vc      []int // clock released by the last Unlock (writers)
+	readers int   // RWMutex: read locks currently held
+	rvc     []int // RWMutex: join of the clocks released by RUnlock since the last Lock
 }
 
 type schedState struct {
@@ -110,7 +113,7 @@ func (c *Ctx) runnable() []int {
 			continue
 		}
 		if t.blocked != nil {
-			if m := s.mu[t.blocked]; m != nil && m.held {
+			if m := s.mu[t.blocked]; m != nil && (m.held || (!t.blockedR && m.readers > 0)) {
 				continue
 			}
 		}
@@ -270,17 +273,57 @@ func (c *Ctx) lock(m *Value) {
 			st = &mutexState{}
 			s.mu[m] = st
 		}
-		if !st.held {
+		if !st.held && st.readers == 0 {
 			st.held, st.owner = true, s.cur
+			me := s.me()
+			// a writer is ordered after the previous writer and after every reader
+			me.vc = vcMax(vcMax(me.vc, st.vc), st.rvc)
+			st.rvc = nil
+			me.blocked = nil
+			return
+		}
+		me := s.me()
+		me.blocked, me.blockedR = m, false
+		c.pickNext(false)
+	}
+}
+
+// rlock / runlock: sync.RWMutex read side. Readers exclude writers, not each
+// other; a reader is ordered after the last writer's Unlock only (two readers
+// are concurrent, so what they both touch is checked for races).
+func (c *Ctx) rlock(m *Value) {
+	s := c.sch()
+	c.syncPoint()
+	for {
+		st := s.mu[m]
+		if st == nil {
+			st = &mutexState{}
+			s.mu[m] = st
+		}
+		if !st.held {
+			st.readers++
 			me := s.me()
 			me.vc = vcMax(me.vc, st.vc)
 			me.blocked = nil
 			return
 		}
 		me := s.me()
-		me.blocked = m
+		me.blocked, me.blockedR = m, true
 		c.pickNext(false)
 	}
+}
+
+func (c *Ctx) runlock(m *Value) {
+	s := c.sch()
+	st := s.mu[m]
+	if st == nil || st.readers == 0 {
+		panic(&goPanic{what: "sync: RUnlock of unlocked RWMutex", pos: c.cp()})
+	}
+	me := s.me()
+	st.readers--
+	st.rvc = vcMax(append([]int{}, me.vc...), st.rvc)
+	me.vc[me.id]++
+	c.syncPoint()
 }
 
 func (c *Ctx) unlock(m *Value) {
